@@ -448,6 +448,34 @@ NnlsProblem make_nnls(const Json &d) {
 	int m = m0 + n;
 	p.m = m;
 	p.M.assign((size_t)m * n, 0); p.y.assign((size_t)m, 0);
+	if (kind == "tie2") {
+		// two uncoupled identical variables, both coupled in the same way to the rest (dyadic numbers, so that
+		// the tie between them is exact in floating point): A = [[1,0,a'],[0,1,a'],[a,a,D]], b = (1,1,...)
+		p.m = 0;
+		p.A.assign((size_t)n * n, 0); p.b.assign((size_t)n, 0);
+		p.A[0] = 1; p.A[(size_t)n + 1] = 1;
+		p.b[0] = 1; p.b[1] = 1;
+		// Lawson-Hanson frees the largest multiplier first: b0 = b1 = 1 are the largest, so the tied pair enters
+		// the passive set first (x0 = x1 = 1); a coupled variable j with 2a < b_j <= 1 is freed next, and with a
+		// diagonal only slightly above the Schur complement 2a^2 its solution is large enough to push the pair
+		// negative - both members at exactly the same step length
+		std::vector<double> acol((size_t)n, 0);
+		for (int j = 2; j < n; j++) {
+			double a = (double)r.range(2, 7) / 16.0;                    // 1/8 .. 7/16
+			acol[(size_t)j] = a;
+			p.A[(size_t)j] = p.A[(size_t)j * n] = a;
+			p.A[(size_t)n + j] = p.A[(size_t)j * n + 1] = a;
+			double lo = 2 * a;
+			p.b[(size_t)j] = lo + (1.0 - lo) * (double)r.range(1, 8) / 8.0;   // in (2a, 1]
+		}
+		for (int i = 2; i < n; i++) for (int j = i + 1; j < n; j++) { double v = (double)r.range(-1, 1) / 32.0; p.A[(size_t)i * n + j] = p.A[(size_t)j * n + i] = v; }
+		for (int i = 2; i < n; i++) {
+			double off = 0;
+			for (int j = 2; j < n; j++) if (j != i) off += std::fabs(p.A[(size_t)i * n + j]) + 2 * std::fabs(acol[(size_t)i] * acol[(size_t)j]);
+			p.A[(size_t)i * n + i] = 2 * acol[(size_t)i] * acol[(size_t)i] + off + (double)r.range(1, 8) / 64.0;
+		}
+		return p;
+	}
 	bool exact = (kind == "integer" || kind == "degenerate");
 	if (exact) {
 		// small integers: products and sums are exact, so ties and exact zeros are real
@@ -463,6 +491,21 @@ NnlsProblem make_nnls(const Json &d) {
 		}
 		for (int k = 0; k < m0; k++) p.y[(size_t)k] = std::sin(3.0 * k / m0 + r.unit()) + 0.3 * r.normal();
 		for (int i = 0; i < n; i++) p.M[(size_t)(m0 + i) * n + i] = 1e-2;
+	} else if (kind == "tie") {
+		// exact ties: variables come in pairs (2i, 2i+1) that the system cannot tell apart - their columns are
+		// images of each other under a row swap P, every other column and the data are invariant under P - so
+		// both members of a pair reach zero at exactly the same step length (small integers: arithmetic exact)
+		int half = m0 / 2; if (half < 1) half = 1;
+		m0 = 2 * half; m = m0 + n; p.m = m;
+		p.M.assign((size_t)m * n, 0); p.y.assign((size_t)m, 0);
+		auto swp = [&](int k) { return k < 2 * half ? (k ^ 1) : k; };
+		for (int j = 0; j + 1 < n; j += 2) {
+			for (int k = 0; k < m0; k++) p.M[(size_t)k * n + j] = (double)r.range(-3, 3);
+			for (int k = 0; k < m0; k++) p.M[(size_t)swp(k) * n + j + 1] = p.M[(size_t)k * n + j];
+		}
+		if (n % 2) for (int k = 0; k < m0; k += 2) { double v = (double)r.range(-3, 3); p.M[(size_t)k * n + n - 1] = v; p.M[(size_t)(k + 1) * n + n - 1] = v; }
+		for (int k = 0; k < m0; k += 2) { double v = (double)r.range(-4, 4); p.y[(size_t)k] = v; p.y[(size_t)k + 1] = v; }
+		for (int i = 0; i < n; i++) p.M[(size_t)(m0 + i) * n + i] = 1;     // ridge 1 (keeps the pairs symmetric)
 	} else if (kind == "bumps") {
 		// strongly overlapping bump columns and data with sign changes: the unconstrained sub-solutions
 		// ring, so several outer iterations with projected line searches and pending constraints happen
@@ -809,16 +852,22 @@ struct SchedHarness : Harness {
 			est_len = 20 + 12 * workers;
 		} else if (depth == "block3" || depth == "plain") {
 			int n = 2 + (int)gen.below(9);
-			static const char *kinds[] = {"random", "random", "integer", "degenerate", "scaled", "sparse", "tspline", "tspline", "bumps", "bumps", "bumps"};
-			std::string kind = kinds[gen.below(11)];
+			static const char *kinds[] = {"random", "random", "integer", "degenerate", "scaled", "sparse", "tspline", "tspline", "bumps", "bumps", "bumps", "tie", "tie2", "tie2"};
+			std::string kind = kinds[gen.below(14)];
+			if (kind == "tie2") n = 3 + (int)gen.below(5);
 			if (kind == "bumps" || (kind == "tspline" && gen.chance(0.5))) n = 6 + (int)gen.below(7);   // 6..12: room for multi-step active-set histories
 			if (kind == "sparse" && gen.chance(0.5)) n = 13 + (int)gen.below(28);   // beyond enumeration: KKT residual only
+			// a few large dense systems with one or two workers: only there modify_factor's heuristic picks
+			// row up/down-dates for several rows at once (checked through the KKT residual)
+			bool big = gen.chance(0.05);
+			if (big) { kind = "random"; n = 60 + (int)gen.below(61); workers = 1 + (int)gen.below(2); }
 			prob["n"] = Json(n);
 			prob["kind"] = Json(kind);
 			if (depth == "plain") {
 				static const char *sv[] = {"block", "updown", "lh_normal", "lh_ls"};
 				std::string s = sv[gen.below(4)];
-				if (s == "lh_ls" && (kind == "integer" || kind == "degenerate")) s = "lh_normal";
+				if (big) s = gen.chance(0.5) ? "updown" : "block";
+				if (s == "lh_ls" && (kind == "integer" || kind == "degenerate" || kind == "tie2")) s = "lh_normal";
 				prob["solver"] = Json(s);
 				static const double tols[] = {0, 0, 1e-10};
 				prob["lh_tol"] = Json(tols[gen.below(3)]);
